@@ -433,6 +433,12 @@ impl LogReader {
         // A buffer consolidating all of the fragments retrieved from the log file.
         let mut data_buffer: Vec<u8> = vec![];
 
+        // True while the fragments of a record that was started by a `First` block are being
+        // collected. A writer can die between two fragments and a later writer can append after
+        // the unfinished record, so a `Full` or `First` block ends (and discards) an unfinished
+        // record, and `Middle`/`Last` blocks without a preceding `First` are dropped.
+        let mut in_fragmented_record = false;
+
         loop {
             let maybe_record = self.read_physical_record();
             if let Err(physical_read_err) = maybe_record {
@@ -444,16 +450,52 @@ impl LogReader {
                 }
             } else {
                 let record = maybe_record.unwrap();
-                data_buffer.extend(record.data);
 
                 match record.block_type {
                     BlockType::Full => {
+                        if in_fragmented_record {
+                            LogReader::log_drop(
+                                data_buffer.len() as u64,
+                                "Partial record without an end.".to_owned(),
+                            );
+                            data_buffer.clear();
+                        }
+
+                        data_buffer.extend(record.data);
                         return Ok((data_buffer, false));
                     }
-                    BlockType::First => {}
-                    BlockType::Middle => {}
+                    BlockType::First => {
+                        if in_fragmented_record {
+                            LogReader::log_drop(
+                                data_buffer.len() as u64,
+                                "Partial record without an end.".to_owned(),
+                            );
+                            data_buffer.clear();
+                        }
+
+                        data_buffer.extend(record.data);
+                        in_fragmented_record = true;
+                    }
+                    BlockType::Middle => {
+                        if in_fragmented_record {
+                            data_buffer.extend(record.data);
+                        } else {
+                            LogReader::log_drop(
+                                record.data.len() as u64,
+                                "Missing the start of a fragmented record.".to_owned(),
+                            );
+                        }
+                    }
                     BlockType::Last => {
-                        return Ok((data_buffer, false));
+                        if in_fragmented_record {
+                            data_buffer.extend(record.data);
+                            return Ok((data_buffer, false));
+                        }
+
+                        LogReader::log_drop(
+                            record.data.len() as u64,
+                            "Missing the start of a fragmented record.".to_owned(),
+                        );
                     }
                 }
             }
